@@ -52,6 +52,9 @@ def cases(tier, seed):
     for cid, kw, level, opts in (c05.MSD_IRREGULAR if tier == 'thorough' else c05.MSD_IRREGULAR[:3]):
         # empty start and no inflow only: the other region is C05's open finding KF-C05-msd, reported by the C05 check
         out.append(('irregular_' + cid, dict(kind='c05', shape='contract_storage', kw=dict(kw), level=level, opts=dict(opts, outside_known_only=True))))
+    # the volume limit of a coarse step is rate x the coarse step's length whatever form the rate is given in (C19's form machinery)
+    for wf in ('coarse_contract_caps_column_vs_scalar', 'coarse_contract_caps_dict_vs_scalar'):
+        out.append(('forms_' + wf, dict(kind='forms', which=wf)))
     out.append(('irregular_coarse_contract_dst', dict(kind='coarse13', opt='coarse', kind13='contract', T=4, coarse='2d', freq=('d', '2021-03-27', '2021-03-31', 'CET'))))
     out.append(('irregular_coarse_transport_dst', dict(kind='coarse13', opt='coarse', kind13='transport', T=4, coarse='2d', eff=0.5, freq=('d', '2021-10-30', '2021-11-03', 'CET'))))
     return out
@@ -213,6 +216,11 @@ def run_case(case_id, tier, seed, kind, **kw):
         res = c13.run_case(case_id, tier, seed, **_c13_kw(kw))
         res['prop'] = PROP
         return res
+    if kind == 'forms':
+        from . import c19
+        res = c19.run_forms(lpsem.Rec(PROP, case_id), seed, **kw)
+        res['prop'] = PROP
+        return res
     if kind == 'c05':
         from . import c05
         res = c05.run_case(case_id, tier, seed, **kw)
@@ -308,6 +316,9 @@ def observe(case, kwargs, env, rq):
     if kind == 'c05':
         from . import c05
         return c05.observe(case, kw, env, rq)
+    if kind == 'forms':
+        from . import c19
+        return c19.observe(case, kwargs, env, rq)
     if kind == 'irregular':
         sc = scen.run(D, kw['shape'], kw['kw'], None, False, env=env)
         if rq.get('kind') != 'replay':
@@ -330,6 +341,9 @@ def judge(case, kwargs, cand, ans):
     if kwargs.get('kind') == 'coarse13':
         from . import c13
         return c13.judge(case, _c13_kw({k: v for k, v in kwargs.items() if k != 'kind'}), cand, ans)
+    if kwargs.get('kind') == 'forms':
+        from . import c19
+        return c19.judge(case, kwargs, cand, ans)
     if kwargs.get('kind') == 'c05':
         from . import c05
         return c05.judge(case, {k: v for k, v in kwargs.items() if k != 'kind'}, cand, ans)
